@@ -95,6 +95,20 @@ def expr_params(e, acc=None):
     return acc
 
 
+def expr_has_field(e, name):
+    """Does any place inside the tree go through a field called `name`?"""
+    if not isinstance(e, tuple) or not e:
+        return False
+    if e[0] == "place" and any(f[1] == name for f in e[2]):
+        return True
+    for x in e[1:]:
+        if isinstance(x, tuple) and expr_has_field(x, name):
+            return True
+        if isinstance(x, list) and any(expr_has_field(y, name) for y in x):
+            return True
+    return False
+
+
 def expr_fields(e):
     """Field path of a ('place', ...) expr, else ()."""
     if isinstance(e, tuple) and e and e[0] == "place":
